@@ -1,11 +1,12 @@
 #!/bin/bash
 # quick trial of a seeded change against checks, in a scratch worktree (never touches /repo): trydbg.sh <seed-id> C01 C02 ...
 sid=$1; shift
-[ -d /tmp/dbg ] || git -C /repo worktree add --detach /tmp/dbg HEAD -q
-git -C /tmp/dbg checkout -q -- . ; git -C /tmp/dbg checkout -q --detach $(git -C /repo rev-parse HEAD) 2>/dev/null
-git -C /tmp/dbg apply --whitespace=nowarn /verif/seeded/$sid/patch.diff || exit 3
+D=${DBG_DIR:-/tmp/dbg}
+[ -d $D ] || git -C /repo worktree add --detach $D HEAD -q
+git -C $D checkout -q -- . ; git -C $D checkout -q --detach $(git -C /repo rev-parse HEAD) 2>/dev/null
+git -C $D apply --whitespace=nowarn /verif/seeded/$sid/patch.diff || exit 3
 for c in "$@"; do
-  out=$(cd /verif && MC_REPO_SRC=/tmp/dbg/src /venv/bin/python -m mc check $c --tier quick 2>&1); rc=$?
+  out=$(cd /verif && MC_REPO_SRC=$D/src /venv/bin/python -m mc check $c --tier quick 2>&1); rc=$?
   echo "$sid $c exit=$rc $(echo "$out" | grep -E '^  sig=' | head -3 | cut -c1-230 | tr '\n' '|')"
 done
-git -C /tmp/dbg checkout -q -- .
+git -C $D checkout -q -- .
